@@ -113,7 +113,12 @@ class Repo:
         body: list[ast.stmt] = info.tree.body
         node: ast.AST | None = None
         for i, part in enumerate(parts):
-            found = self._find_in(body, part)
+            if "#" in part:                      # name#k: the k-th definition of that name in source order
+                nm, k = part.split("#")
+                alld = self._find_all(body, nm)
+                found = alld[int(k)] if int(k) < len(alld) else None
+            else:
+                found = self._find_in(body, part)
             if found is None:
                 raise FunctionNotFound(f"{relfile}::{qualname} (no '{part}')")
             node = found
@@ -122,6 +127,20 @@ class Repo:
                 body = found.body  # type: ignore[attr-defined]
         assert node is not None
         return node, info, chain
+
+    def _find_all(self, body: list[ast.stmt], name: str) -> list:
+        out = []
+        for st in body:
+            if isinstance(st, (ast.FunctionDef, ast.AsyncFunctionDef, ast.ClassDef)) and st.name == name:
+                if isinstance(st, ast.ClassDef) or not _is_overload(st):
+                    out.append(st)
+            elif isinstance(st, ast.If):
+                out += self._find_all(st.body, name) + self._find_all(st.orelse, name)
+            elif isinstance(st, ast.Try):
+                out += self._find_all(st.body, name)
+            elif isinstance(st, (ast.With, ast.AsyncWith, ast.For, ast.While)):
+                out += self._find_all(st.body, name)
+        return out
 
     def _find_in(self, body: list[ast.stmt], name: str):
         # last definition wins, skipping @overload stubs; descends into if/else/try/with bodies
